@@ -4,20 +4,32 @@ namespace QuaiVerif.Payout
 
 structure DState where
   depths : List Nat := []
-  rs     : List Reward := []
-  addrs  : List String := []
+  rs     : List Reward := []          -- in chain order
+  addrs  : List String := []          -- accounts that exist from the start (with 1 wei)
+  fresh  : List String := []          -- accounts that do not exist until a payout creates them
+  fees   : List (Nat × Nat) := []     -- creation fee in force per height
+
+def feeAt (fees : List (Nat × Nat)) (h : Nat) : Nat := ((fees.find? fun p => p.1 == h).map (·.2)).getD 0
 
 def step (d : DState) (ws : List String) : DState × String :=
   match ws with
   | ["newcase"] => ({}, "ok")
   | "depths" :: l => ({ d with depths := l.filterMap String.toNat? }, "ok")
   | "watch" :: l => ({ d with addrs := l }, "ok")
+  | "fresh" :: l => ({ d with fresh := l }, "ok")
   | ["ev", a, amt, b, dp] => match amt.toNat?, b.toNat?, dp.toNat? with
-    | some amt, some b, some dp => ({ d with rs := ⟨a, amt, b, dp⟩ :: d.rs }, "ok")
+    | some amt, some b, some dp => ({ d with rs := d.rs ++ [⟨a, amt, b, dp⟩] }, "ok")
     | _, _, _ => (d, "bad-op")
-  | ["blk", h] => match h.toNat? with
-    | some h => (d, " ".intercalate (d.addrs.map fun a => s!"{a}={creditedUpTo d.depths d.rs a h}"))
-    | none => (d, "bad-op")
+  | ["blk", h, fee] => match h.toNat?, fee.toNat? with
+    | some h, some fee =>
+      let d := { d with fees := (h, fee) :: d.fees }
+      let f := feeAt d.fees
+      let old := d.addrs.map fun a => s!"{a}={(acctUpTo d.depths f d.rs a ⟨true, 1⟩ h).bal - 1}"
+      let new := d.fresh.map fun a =>
+        let r := acctUpTo d.depths f d.rs a ⟨false, 0⟩ h
+        s!"{a}={r.bal}/{if r.live then 1 else 0}"
+      (d, " ".intercalate (old ++ new))
+    | _, _ => (d, "bad-op")
   | _ => (d, "bad-op")
 
 end QuaiVerif.Payout
